@@ -238,12 +238,16 @@ Section StepSafety.
     cbn [res_ok] in Hs; rok_tac; exact Hs.
   Qed.
 
+  Lemma rok_rmapw : forall A (f : world -> world) (r : R A), rok r -> rok (rmapw f r).
+  Proof. intros A f r H. destruct r; cbn; auto. Qed.
+
   Lemma load_walk_ok : forall n k name isRaw w, rok (load_walk call E n k name isRaw w).
   Proof.
     induction n; intros k name isRaw w; cbn [load_walk]; [exact Logic.I|].
-    destruct (nth_error (w_chain w) k); [|exact Logic.I].
+    destruct (nth_error (w_chain w) k); [|exact Logic.I]. cbv zeta.
     apply rok_rbind.
-    - destruct (match mget name _ with Some v => v | None => VNull end); try exact Logic.I.
+    - apply rok_rmapw.
+      destruct (match mget name _ with Some v => v | None => VNull end); try exact Logic.I.
       destruct isRaw; [exact Logic.I|apply computed_execute_ok].
     - intros v w'. destruct v; try exact Logic.I. apply IHn.
   Qed.
@@ -1151,17 +1155,46 @@ Section Mono.
       destruct Hs as [Hs1 Hs2]; [split; [discriminate|split; [unfold MaxInt64 in *; lia|constructor]]|reflexivity|].
       destruct (w_chain (m_w m')) as [|s' [|t' rest']] eqn:Hc'; try exact Logic.I.
       cbn. unfold W, ops_of, w_self. cbn. split; [discriminate|]. cbn in Hs1, Hs2. lia.
-    - destruct (w_chain (m_w m)) as [|s' rest']; exact Logic.I.
+    - destruct (w_chain (m_w m)) as [|s' [|t' rest']]; exact Logic.I.
   Qed.
+
+  (* carrying the counter to a calling context leaves the running context's counter alone; carrying it back only raises it,
+     to an int64 *)
+  Lemma W_sync_to : forall k w, W w -> W (sync_to k w).
+  Proof.
+    intros k w Hw. destruct k as [|k]; [exact Hw|]. unfold sync_to.
+    destruct (_ <? _); [|exact Hw]. unfold set_ops_at.
+    destruct (nth_error (w_chain w) (S k)) as [c|] eqn:Hn; [|exact Hw].
+    destruct Hw as [Hne Ho]. unfold W, ops_of, w_self in *. unfold chain_put. cbn [w_set_chain w_chain].
+    destruct (w_chain w) as [|x r]; [congruence|]. cbn [firstn app hd]. split; [discriminate|exact Ho].
+  Qed.
+
+  Lemma W_sync_back : forall k w, W w -> W (sync_back k w).
+  Proof.
+    intros k w Hw. destruct k as [|k]; [exact Hw|]. unfold sync_back. cbv zeta.
+    destruct (ops_at 0 w <? wrap64 (ops_at (S k) w)) eqn:Hlt; [|exact Hw]. apply Z.ltb_lt in Hlt.
+    unfold set_ops_at. destruct (nth_error (w_chain w) 0) as [c|] eqn:Hn; [|exact Hw].
+    destruct Hw as [Hne Ho]. unfold W, ops_of, w_self, ops_at in *. unfold chain_put. cbn [w_set_chain w_chain firstn app hd c_ops].
+    destruct (w_chain w) as [|x r]; [congruence|]. cbn in Hn. injection Hn as <-. cbn [hd nth_error] in *.
+    split; [discriminate|].
+    match goal with H : _ < wrap64 ?z |- _ => pose proof (wrap64_range z) as Hr end.
+    unfold MinInt64, MaxInt64 in *. cbn [nth_error] in *. lia.
+  Qed.
+
+  Lemma rmono_rmapw : forall A (f : world -> world) (r : R A), (forall w, W w -> W (f w)) -> rmono r -> rmono (rmapw f r).
+  Proof. intros A f r Hf H. destruct r; cbn; auto. Qed.
 
   Lemma load_walk_mono : forall n k name isRaw w, W w -> (k = 0%nat -> ops_of w <= L) ->
     rmono (load_walk call E n k name isRaw w).
   Proof.
     induction n; intros k name isRaw w Hw Hk; cbn [load_walk]; [exact Hw|].
-    destruct (nth_error (w_chain w) k); [|exact Hw].
+    destruct (nth_error (w_chain w) k); [|exact Hw]. cbv zeta.
+    assert (Hw0 : W (sync_to k w)) by (apply W_sync_to; exact Hw).
     apply rmono_rbind.
-    - destruct (match mget name _ with Some v => v | None => VNull end); try exact Hw.
-      destruct isRaw; [exact Hw|apply computed_execute_mono; assumption].
+    - apply rmono_rmapw; [intros; apply W_sync_back; assumption|].
+      destruct (match mget name _ with Some v => v | None => VNull end); try exact Hw0.
+      destruct isRaw; [exact Hw0|apply computed_execute_mono; [exact Hw0|]].
+      intros ->. cbn [sync_to]. apply Hk; reflexivity.
     - intros v w' Hw'. destruct v; try exact Hw'. apply IHn; [exact Hw'|discriminate].
   Qed.
 
@@ -1591,7 +1624,7 @@ Example C07_call_charge_wraps_near_MaxInt64 :
   let w := {| w_heap := vs_heap st0; w_pcg := vs_pcg st0; w_st := [];
               w_chain := [{| c_attrs := vs_attrs st0; c_ops := MaxInt64 - 60 |}] |} in
   match func_invoke (exec 10 E) E 0 [] w with
-  | RFail EBudget w' => ops_of w' = MinInt64 + 39
+  | RFail EBudget w' => ops_of w' = MaxInt64      (* the callee's saturated counter is charged to the caller *)
   | _ => False
   end.
 Proof. vm_compute. reflexivity. Qed.
@@ -1855,18 +1888,37 @@ Section Good.
     - assert (Gm : G m') by (apply Hs; split; [apply new_frame_good|exact Hh]).
       destruct (w_chain (m_w m')) as [|s' [|t' rest']]; try exact Logic.I.
       split; [apply ret_good; exact Gm|apply Gm].
-    - destruct (w_chain (m_w m)) as [|s' rest']; exact Logic.I.
+    - destruct (w_chain (m_w m)) as [|s' [|t' rest']]; exact Logic.I.
     - apply Hs. split; [apply new_frame_good|exact Hh].
   Qed.
+
+  (* carrying the operation counter between contexts does not touch the heap *)
+  Lemma heap_set_ops_at : forall k ops w, w_heap (set_ops_at k ops w) = w_heap w.
+  Proof. intros; unfold set_ops_at. destruct (nth_error _ _); reflexivity. Qed.
+  Lemma wg_sync_to : forall k w, wg w -> wg (sync_to k w).
+  Proof.
+    intros k w H. destruct k; [exact H|]. unfold sync_to. destruct (_ <? _); [|exact H].
+    unfold wg. rewrite heap_set_ops_at. exact H.
+  Qed.
+  Lemma wg_sync_back : forall k w, wg w -> wg (sync_back k w).
+  Proof.
+    intros k w H. destruct k; [exact H|]. unfold sync_back. cbv zeta. destruct (_ <? _); [|exact H].
+    unfold wg. rewrite heap_set_ops_at. exact H.
+  Qed.
+  Lemma rg_rmapw : forall A (P : A -> Prop) (f : world -> world) (r : R A),
+    (forall w, wg w -> wg (f w)) -> rg P r -> rg P (rmapw f r).
+  Proof. intros A P f r Hf H. destruct r; cbn in *; auto. destruct H; auto. Qed.
 
   Lemma load_walk_g : forall n k name isRaw w, wg w -> rg vgood (load_walk call E n k name isRaw w).
   Proof.
     induction n; intros k name isRaw w Hw; cbn [load_walk]; [split; [apply load_global_good|exact Hw]|].
-    destruct (nth_error (w_chain w) k); [|split; [apply load_global_good|exact Hw]].
+    destruct (nth_error (w_chain w) k); [|split; [apply load_global_good|exact Hw]]. cbv zeta.
+    pose proof (wg_sync_to k w Hw) as Hw0.
     eapply rg_rbind with (P := vgood).
-    - pose proof (mget_or_null_good name _ (get_map_good (c_attrs c) _ Hw)) as Hv.
-      destruct (match mget name _ with Some v => v | None => VNull end); try (split; [exact Hv|exact Hw]).
-      destruct isRaw; [split; [exact Hv|exact Hw]|apply computed_execute_g; exact Hw].
+    - apply rg_rmapw; [intros; apply wg_sync_back; assumption|].
+      pose proof (mget_or_null_good name _ (get_map_good (c_attrs c) _ Hw)) as Hv.
+      destruct (match mget name _ with Some v => v | None => VNull end); try (split; [exact Hv|exact Hw0]).
+      destruct isRaw; [split; [exact Hv|exact Hw0]|apply computed_execute_g; exact Hw0].
     - intros v w' Hv Hw'. destruct v; try (split; [exact Hv|exact Hw']). apply IHn; exact Hw'.
   Qed.
   Lemma load_name_g : forall name isRaw w, wg w -> rg vgood (load_name call E name isRaw w).
